@@ -39,11 +39,16 @@ type Program struct {
 	GOOS      string
 	GOARCH    string
 
-	nnErrCache  map[*ssa.Function]int
-	nnPresCache map[*ssa.Function]int
-	sites       map[ssa.CallInstruction][]*ssa.Function
-	reachCache  map[*ssa.Function]map[*ssa.Function]bool
-	callerIdx   map[*ssa.Function][]ssa.CallInstruction
+	nnErrCache   map[*ssa.Function]int
+	nnPresCache  map[*ssa.Function]int
+	sites        map[ssa.CallInstruction][]*ssa.Function
+	reachCache   map[*ssa.Function]map[*ssa.Function]bool
+	callerIdx    map[*ssa.Function][]ssa.CallInstruction
+	users        map[*ssa.Function]map[*ssa.Function]bool
+	regions      map[*ssa.Function][]*ssa.Function
+	helperMemo   map[helperKey]int
+	boundMemo    map[[2]interface{}][]ssa.Value
+	onCommitBusy map[*ssa.Function]bool
 }
 
 func repoDir() string {
@@ -204,8 +209,12 @@ func Load(repo, goos, goarch string) (*Program, error) {
 		}
 		return a.String() < b.String()
 	})
+	theProg = p
 	return p, nil
 }
+
+// theProg: the program under analysis (set by Load; predicates built without a *Program use it to look into helpers).
+var theProg *Program
 
 // InRepo reports whether fn's package is a btcwallet package.
 func (p *Program) InRepo(fn *ssa.Function) bool {
